@@ -19,7 +19,8 @@ from vf.core import Collector, Ctx, hyp_explore, jdump
 RULE = (
     "A scenario = a real Gateway (4 zones + DHW) and a scripted controller holding 3 generated schedule versions per zone "
     "(1-4 fragments each; zone and DHW formats) and a change counter; 1-3 transfers (get with/without force_io, or set of "
-    "a generated schedule; start offsets 0 / 0.05 / 1 / 4 s; optional caller-side wait_for of 0.3-14 s); a fate for each of "
+    "a generated schedule; concurrent with start offsets 0 / 0.05 / 1 / 4 s, or 2-4 run one after another mostly on one zone "
+    "with the controller's schedule changed in between (same-size versions in half of those); optional caller-side wait_for of 0.3-14 s); a fate for each of "
     "the first 40 request transmissions (ok, request lost, reply lost, reply delayed 0.2-3 s, reply duplicated; loss runs of "
     "4-9 that outlast the 3 retries), 0-3 schedule changes (same or other zone) tied to transmission numbers, 0-3 overheard "
     "RP|0404 fragments (this/other zone, to this/another gateway); then, faults off, a forced fetch of another zone. "
@@ -29,6 +30,22 @@ RULE = (
 CTL = "01:145038"
 GWY = "18:006402"
 ZONES = ("00", "01", "02", "03", "HW")
+
+
+def _perturb(schedule: list, k: int) -> list:
+    """The same weekly schedule with every setpoint moved by k x 0.5 degC (or every DHW flag of day k inverted): same
+    shape, so very likely the same number of fragments."""
+    import copy
+
+    out = copy.deepcopy(schedule)
+    for d in out:
+        for sp in d["switchpoints"]:
+            if "heat_setpoint" in sp:
+                c = round(sp["heat_setpoint"] * 100) + 50 * k  # in hundredths: exact
+                sp["heat_setpoint"] = (c if c <= 3500 else c - 100 * k) / 100
+            elif d["day_of_week"] == k:
+                sp["enabled"] = not sp["enabled"]
+    return out
 
 
 # ---- generator --------------------------------------------------------------------------------------------------------
@@ -49,13 +66,21 @@ def scenario_strategy() -> Any:
                 s["zone_idx"] = z
                 vs.append(s)
             pool[z] = vs
-        n = draw(st.integers(1, 3))
+        sequential = draw(st.integers(0, 2)) == 0  # transfers one after another (cached state carries over), changes in between
+        n = draw(st.integers(2, 4)) if sequential else draw(st.integers(1, 3))
         transfers = []
+        zone0 = draw(st.sampled_from(ZONES))
         for _ in range(n):
             op = draw(st.sampled_from(("get", "get", "get", "set")))
-            transfers.append({"t": draw(st.sampled_from((0.0, 0.0, 0.05, 1.0, 4.0))), "zone": draw(st.sampled_from(ZONES)), "op": op,
-                              "force_io": draw(st.booleans()), "caller_timeout": draw(st.sampled_from((None, None, None, 0.3, 1.0, 2.5, 6.0, 14.0))),
-                              "sched": draw(st.integers(0, 2))})
+            tr = {"t": draw(st.sampled_from((0.0, 0.0, 0.05, 1.0, 4.0))), "zone": draw(st.sampled_from(ZONES)), "op": op,
+                  "force_io": draw(st.booleans()), "caller_timeout": draw(st.sampled_from((None, None, None, 0.3, 1.0, 2.5, 6.0, 14.0))),
+                  "sched": draw(st.integers(0, 2))}
+            if sequential:
+                tr["zone"] = zone0 if draw(st.integers(0, 3)) else tr["zone"]  # mostly the same zone again
+                tr["bump_before"] = draw(st.sampled_from((None, "own", "own", "other")))  # the controller's schedule changes between transfers
+                tr["force_io"] = draw(st.sampled_from((True, True, False)))
+                tr["caller_timeout"] = draw(st.sampled_from((None, None, None, 6.0)))
+            transfers.append(tr)
         fates: dict[str, str] = {}
         mode = draw(st.sampled_from(("none", "sparse", "sparse", "runs", "runs")))
         if mode == "sparse":
@@ -71,9 +96,14 @@ def scenario_strategy() -> Any:
                 for i in range(a, a + k):
                     fates[str(i)] = f
         bumps = [{"at": draw(st.integers(1, 20)), "zone": draw(st.sampled_from(ZONES))} for _ in range(draw(st.integers(0, 3)))]
-        overheard = [{"at": draw(st.integers(1, 20)), "zone": draw(st.sampled_from(ZONES)), "frag": draw(st.integers(0, 3)), "ver": draw(st.integers(0, 2)),
-                      "to": draw(st.sampled_from(("gwy", "other")))} for _ in range(draw(st.integers(0, 3)))]
-        return {"pool": pool, "transfers": transfers, "fates": fates, "bumps": bumps, "overheard": overheard, "prime": draw(st.booleans())}
+        overheard = [{"at": draw(st.integers(1, 20)), "zone": draw(st.sampled_from([zone0] + list(ZONES))), "frag": draw(st.integers(0, 3)),
+                      "ver": draw(st.sampled_from((0, 1, 2, "prev", "prev"))),  # 'prev': the version the zone held before its latest change
+                      "to": draw(st.sampled_from(("gwy", "other"))), "delay": draw(st.sampled_from((0.011, 0.011, 0.05, 0.2)))}
+                     for _ in range(draw(st.integers(0, 3)))]
+        if sequential and draw(st.booleans()):  # same-size versions: a stale fragment fits the new set
+            for z in ZONES:
+                pool[z] = [dict(pool[z][0]), dict(pool[z][0], schedule=_perturb(pool[z][0]["schedule"], 1)), dict(pool[z][0], schedule=_perturb(pool[z][0]["schedule"], 2))]
+        return {"pool": pool, "transfers": transfers, "fates": fates, "bumps": bumps, "overheard": overheard, "prime": draw(st.booleans()), "sequential": sequential}
 
     return scenario
 
@@ -90,6 +120,7 @@ class Controller:
         self.frz = lambda full: full_sched_to_fragz(wire(full))  # the codec (C17's subject) - used to assemble frames
         self.cur = {z: 0 for z in ZONES}  # index into pool
         self.sched = {z: case["pool"][z][0] for z in ZONES}
+        self.prev = dict(self.sched)
         self.history: dict[str, list[tuple[float, Any]]] = {z: [(0.0, case["pool"][z][0]["schedule"])] for z in ZONES}
         self.counter = 0x0135
         self.tx = 0
@@ -106,6 +137,7 @@ class Controller:
         return [f"{idx}{'23' if dhw else '20'}0008{len(fr) // 2:02X}{i:02X}{len(frags):02X}{fr}" for i, fr in enumerate(frags, 1)]
 
     def set_version(self, z: str, full: dict) -> None:
+        self.prev[z] = self.sched[z]
         self.sched[z] = full
         self.counter += 1
         self.history[z].append((self.loop.time(), full["schedule"]))
@@ -136,9 +168,9 @@ class Controller:
                     self.bump(b["zone"])
             for o in self.case["overheard"]:
                 if o["at"] == self.tx:
-                    frs = self.frames_for(o["zone"], self.case["pool"][o["zone"]][o["ver"]])
+                    frs = self.frames_for(o["zone"], self.prev[o["zone"]] if o["ver"] == "prev" else self.case["pool"][o["zone"]][o["ver"]])
                     p = frs[o["frag"] % len(frs)]
-                    self.loop.call_later(0.011, self.eth.inject, f"RP --- {CTL} {GWY if o['to'] == 'gwy' else '18:099999'} --:------ 0404 {len(p) // 2:03d} {p}")
+                    self.loop.call_later(o.get("delay", 0.011), self.eth.inject, f"RP --- {CTL} {GWY if o['to'] == 'gwy' else '18:099999'} --:------ 0404 {len(p) // 2:03d} {p}")
         self.log.append({"t": self.loop.time(), "n": self.tx, "frame": frame[:60], "fate": fate})
         if fate == "lose-req":
             return
@@ -212,11 +244,21 @@ async def _run(loop: Any, case: dict) -> dict:
             rec["t_end"] = loop.time()
 
         recs = [dict(spec) for spec in case["transfers"]]
-        tasks = [loop.create_task(transfer(spec, rec)) for spec, rec in zip(case["transfers"], recs)]
-        done, pending = await asyncio.wait(tasks, timeout=1200)
-        for p in pending:
-            p.cancel()
-        await asyncio.gather(*pending, return_exceptions=True)
+        if case.get("sequential"):
+            for spec, rec in zip(case["transfers"], recs):
+                if spec.get("bump_before"):
+                    ctl.bump(spec["zone"] if spec["bump_before"] == "own" else next(z for z in ZONES if z != spec["zone"]))
+                    await asyncio.sleep(0.01)
+                try:
+                    await asyncio.wait_for(transfer(spec, rec), timeout=1200)
+                except asyncio.TimeoutError:
+                    rec["outcome"] = "pending"
+        else:
+            tasks = [loop.create_task(transfer(spec, rec)) for spec, rec in zip(case["transfers"], recs)]
+            done, pending = await asyncio.wait(tasks, timeout=1200)
+            for p in pending:
+                p.cancel()
+            await asyncio.gather(*pending, return_exceptions=True)
         await vclock.quiesce()
         obs["transfers"] = recs
         obs["lock_after"] = tcs.zone_lock_idx
@@ -280,8 +322,15 @@ def judge(case: dict, obs: dict) -> tuple[list[tuple[dict, str]], dict]:
             out.append(({"clause": "late", "op": op, "caller_timeout": bool(rec["caller_timeout"])}, f"transfer {i} ({op} {rec['zone']}) took {dur:.1f} s (limit {limit} s)"))
         if rec["outcome"] == "result":
             versions = hist.get(rec["zone"], [])
+            # a reply that the ether delayed by d seconds may answer a later, identical request: the change counter 'read during
+            # the transfer' can then be up to d seconds old, and so can the schedule it vouches for
+            lag = max([float(f.split(":")[1]) for f in case["fates"].values() if f.startswith("delay")] + [0.0])
+            lag = lag + 0.1 if lag else 0.0
+            if any(o["to"] == "gwy" and o["zone"] == rec["zone"] for o in case["overheard"]):
+                lag = 1e9  # a fragment of an earlier version addressed to this gateway is a (late) duplicate of a genuine reply: the
+                #            protocol carries no version in a fragment, so it *is* the reply - any version once held may come back
             during = [s for k, (t, s) in enumerate(versions)
-                      if t <= rec["t_end"] and (k + 1 == len(versions) or versions[k + 1][0] >= rec["t_start"])]
+                      if t <= rec["t_end"] and (k + 1 == len(versions) or versions[k + 1][0] >= rec["t_start"] - lag)]
             anyver = [s for _, s in versions] + [v["schedule"] for v in case["pool"][rec["zone"]]]
             got = rec["result"]
             if op == "set":
@@ -293,7 +342,16 @@ def judge(case: dict, obs: dict) -> tuple[list[tuple[dict, str]], dict]:
             elif _norm(got) not in [_norm(s) for s in anyver]:
                 out.append(({"clause": "mixed-schedule"}, f"transfer {i}: get {rec['zone']} returned a schedule the controller never held: {_norm(got)[:160]}"))
             elif rec["force_io"] and _norm(got) not in [_norm(s) for s in during]:
-                out.append(({"clause": "stale-schedule-from-forced-fetch"},
+                # root cause A (listed known finding): an earlier set_schedule for this zone read the change counter *after* its
+                # last fragment was acknowledged, and a foreign change of the same zone fell into that gap: the written schedule
+                # was cached under a counter that already covers the foreign change
+                cause = "other"
+                for prev in obs["transfers"][:i]:
+                    if prev["zone"] == rec["zone"] and prev["op"] == "set" and prev.get("outcome") == "result":
+                        inside = [t for t, _ in versions if prev["t_start"] < t <= prev["t_end"]]
+                        if len(inside) >= 2:
+                            cause = "foreign-change-inside-set"
+                out.append(({"clause": "stale-schedule-from-forced-fetch", "cause": cause},
                             f"transfer {i}: forced get {rec['zone']} in [{rec['t_start']:.2f}, {rec['t_end']:.2f}] returned a version the controller did not hold in that interval "
                             f"(held: {[round(t, 2) for t, _ in versions]})"))
     if obs.get("lock_after_1s") is not None:
@@ -339,7 +397,7 @@ def explore(job: dict) -> dict:
         viol, st_ = judge(case, obs)
         outs = "+".join(sorted(f"{r['op']}:{r.get('outcome')}" for r in obs["transfers"]))
         col.case(nt=jdump(_brief(case)) + str(hash(jdump(case["pool"]))) if st_["faulted"] else None,
-                 classes=["scn", "scn:faulted" if st_["faulted"] else "scn:clean", f"n:{len(case['transfers'])}", "has-set" if any(t["op"] == "set" for t in case["transfers"]) else "get-only",
+                 classes=["scn", "scn:sequential" if case.get("sequential") else "scn:concurrent", "scn:faulted" if st_["faulted"] else "scn:clean", f"n:{len(case['transfers'])}", "has-set" if any(t["op"] == "set" for t in case["transfers"]) else "get-only",
                           "any-failed" if any(r.get("outcome") == "raised" for r in obs["transfers"]) else "all-succeeded",
                           "caller-timeout" if any(t["caller_timeout"] for t in case["transfers"]) else "no-caller-timeout",
                           "bump-inside" if any(b["at"] <= st_["n_tx"] for b in case["bumps"]) else "no-bump-inside"],
@@ -358,13 +416,13 @@ def run(ctx: Ctx, col: Collector) -> None:
     ctx.rule = RULE
     ctx.assumptions = [
         "the controller is a reference model written for this check (frames assembled by the model; fragments produced with the library's schedule codec, whose round trip is C17's subject)",
-        "a forced get must return a version the model held at some instant of the transfer; a non-forced get may return any version the model ever held (a cached schedule is allowed by the API) - never a mixture",
+        "a forced get must return a version the model held at some instant of the transfer (extended backwards by the longest reply delay of the scenario: a delayed RP|0006 can answer a later identical request); a non-forced get may return any version the model ever held (a cached schedule is allowed by the API) - never a mixture",
         "deadline: the caller's own timeout if given, else 15 s for a get (the API's built-in timeout) and 180 s + 25 s per exchange for a set (3-minute lock wait + QoS-limited sends)",
         "single event loop: the system lock is a threading.Lock used from one thread",
         "the duty-cycle regulator is switched off with the library's own debug flag (as the suite does): a burst of schedule frames would otherwise be throttled to one per 3.4 s and fail the QoS sends for reasons outside this property (C11 covers the regulator)",
     ]
     ctx.parallel(explore, ctx.shards(ctx.n(2400, 60_000), per_shard_min=5), col)
-    ctx.floors = [("scn:faulted", "scn", 0.4), ("any-failed", "scn", 0.1), ("has-set", "scn", 0.2)]
+    ctx.floors = [("scn:faulted", "scn", 0.4), ("any-failed", "scn", 0.08), ("has-set", "scn", 0.2), ("scn:sequential", "scn", 0.2)]
 
 
 def replay(case: dict) -> list[tuple[dict, str]]:
